@@ -36,35 +36,35 @@ SPEC = {
     'lean_modules': ['AITB.Props.C03'],
     'theorems': [
         # algebra of the belief-MDP operator on unnormalised beliefs
-        'AITB.POMDP.mass_bstep', 'AITB.POMDP.dotS_backupVec', 'AITB.POMDP.Hop_mono', 'AITB.POMDP.iterH_mono',
+        'AITB.POMDP3.mass_bstep', 'AITB.POMDP3.dotS_backupVec', 'AITB.POMDP3.Hop_mono', 'AITB.POMDP3.iterH_mono',
         # lower side: point backups, blind strategies
-        'AITB.POMDP.pointBackup_le_qval', 'AITB.POMDP.pointBackup_sound', 'AITB.POMDP.pointBackup_skip_sound_partial',
-        'AITB.POMDP.blindStep_eq_backup', 'AITB.POMDP.blindStep_sound', 'AITB.POMDP.blindIter_sound',
-        'AITB.POMDP.const_le_iterH', 'AITB.POMDP.iterH_superSol',
+        'AITB.POMDP3.pointBackup_le_qval', 'AITB.POMDP3.pointBackup_sound', 'AITB.POMDP3.pointBackup_skip_sound_partial',
+        'AITB.POMDP3.blindStep_eq_backup', 'AITB.POMDP3.blindStep_sound', 'AITB.POMDP3.blindIter_sound',
+        'AITB.POMDP3.const_le_iterH', 'AITB.POMDP3.iterH_superSol',
         # upper side: sublinearity, interpolation, FIB, QMDP, promising backup
-        'AITB.POMDP.Sublin_Hop', 'AITB.POMDP.Sublin_iterH', 'AITB.POMDP.sublin_combo', 'AITB.POMDP.sublin_le_corners',
-        'AITB.POMDP.interp_sound', 'AITB.POMDP.Hop_le_basicVal', 'AITB.POMDP.fib_ge_v', 'AITB.POMDP.fibStepW_sound', 'AITB.POMDP.fibStep_sound',
-        'AITB.POMDP.qmdp_ge_fib_step', 'AITB.POMDP.qmdp_ge_fib', 'AITB.POMDP.promisingVal_ge_qval', 'AITB.POMDP.promisingBackup_upper',
+        'AITB.POMDP3.Sublin_Hop', 'AITB.POMDP3.Sublin_iterH', 'AITB.POMDP3.sublin_combo', 'AITB.POMDP3.sublin_le_corners',
+        'AITB.POMDP3.interp_sound', 'AITB.POMDP3.Hop_le_basicVal', 'AITB.POMDP3.fib_ge_v', 'AITB.POMDP3.fibStepW_sound', 'AITB.POMDP3.fibStep_sound',
+        'AITB.POMDP3.qmdp_ge_fib_step', 'AITB.POMDP3.qmdp_ge_fib', 'AITB.POMDP3.promisingVal_ge_qval', 'AITB.POMDP3.promisingBackup_upper',
         # the two reference families and the modelled loops against them
-        'AITB.POMDP.tolLoop_inv', 'AITB.POMDP.upperRef_superSol', 'AITB.POMDP.upperRef_antitone', 'AITB.POMDP.const_le_upperRef',
-        'AITB.POMDP.finite_horizon_le_upperRef', 'AITB.POMDP.blind_fast_start_safe', 'AITB.POMDP.blind_fast_lower', 'AITB.POMDP.blind_plain_lower',
-        'AITB.POMDP.lowerRef_subSol', 'AITB.POMDP.lowerRef_sublin', 'AITB.POMDP.lowerRef_monotone', 'AITB.POMDP.lowerRef_le_const',
-        'AITB.POMDP.fib_start_safe', 'AITB.POMDP.fib_upper',
+        'AITB.POMDP3.tolLoop_inv', 'AITB.POMDP3.upperRef_superSol', 'AITB.POMDP3.upperRef_antitone', 'AITB.POMDP3.const_le_upperRef',
+        'AITB.POMDP3.finite_horizon_le_upperRef', 'AITB.POMDP3.blind_fast_start_safe', 'AITB.POMDP3.blind_fast_lower', 'AITB.POMDP3.blind_plain_lower',
+        'AITB.POMDP3.lowerRef_subSol', 'AITB.POMDP3.lowerRef_sublin', 'AITB.POMDP3.lowerRef_monotone', 'AITB.POMDP3.lowerRef_le_const',
+        'AITB.POMDP3.fib_start_safe', 'AITB.POMDP3.fib_upper',
         # anytime solvers: event system, invariant, every prefix
-        'AITB.POMDP.isInterp_ge', 'AITB.POMDP.Sound_step', 'AITB.POMDP.anytime_sound', 'AITB.POMDP.initial_sound',
+        'AITB.POMDP3.isInterp_ge', 'AITB.POMDP3.Sound_step', 'AITB.POMDP3.anytime_sound', 'AITB.POMDP3.initial_sound',
         # bestConservativeAction as found / repaired, with the machine-checked witness
-        'AITB.POMDP.conservativeAlpha_sound', 'AITB.POMDP.conservativeAlpha_sound_partial', 'AITB.POMDP.conservative_skip_witness_values',
+        'AITB.POMDP3.conservativeAlpha_sound', 'AITB.POMDP3.conservativeAlpha_sound_partial', 'AITB.POMDP3.conservative_skip_witness_values',
         # finite-horizon solvers, consistency of the enclosure, clamp witness, driver evaluators = reference families
-        'AITB.POMDP.backup_chain_sound', 'AITB.POMDP.pbvi_perseus_sound', 'AITB.POMDP.perseus_infinite_sound',
-        'AITB.POMDP.blindSub_le_mdpSuper', 'AITB.POMDP.lowerRef_le_upperRef', 'AITB.POMDP.blind_fast_start_unsafe_witness',
-        'AITB.POMDP.qmdp_iter_upper', 'AITB.POMDP.qmdp_finite_upper', 'AITB.POMDP.qmdpStep_sound', 'AITB.POMDP.sawtooth_form_isInterp',
-        'AITB.POMDP.weighted_form_isInterp', 'AITB.POMDP.sawtooth_sound', 'AITB.POMDP.lpInterp_sound',
-        'AITB.POMDP.lbClause_of_sound', 'AITB.POMDP.ubClause_of_sound', 'AITB.POMDP.lb_le_ub_of_sound',
-        'AITB.POMDP.iterH_shift', 'AITB.POMDP.gap_eq', 'AITB.POMDP.gap_vanishes', 'AITB.POMDP.lb_le_ub',
-        'AITB.POMDP.iterHV_eq', 'AITB.POMDP.upperRefV_eq', 'AITB.POMDP.lowerRefV_eq',
-        'AITB.POMDP.mW_valid', 'AITB.POMDP.mW_ref_superSol', 'AITB.POMDP.ΓW_sound', 'AITB.POMDP.conservative_skip_counterexample',
+        'AITB.POMDP3.backup_chain_sound', 'AITB.POMDP3.pbvi_perseus_sound', 'AITB.POMDP3.perseus_infinite_sound',
+        'AITB.POMDP3.blindSub_le_mdpSuper', 'AITB.POMDP3.lowerRef_le_upperRef', 'AITB.POMDP3.blind_fast_start_unsafe_witness',
+        'AITB.POMDP3.qmdp_iter_upper', 'AITB.POMDP3.qmdp_finite_upper', 'AITB.POMDP3.qmdpStep_sound', 'AITB.POMDP3.sawtooth_form_isInterp',
+        'AITB.POMDP3.weighted_form_isInterp', 'AITB.POMDP3.sawtooth_sound', 'AITB.POMDP3.lpInterp_sound',
+        'AITB.POMDP3.lbClause_of_sound', 'AITB.POMDP3.ubClause_of_sound', 'AITB.POMDP3.lb_le_ub_of_sound',
+        'AITB.POMDP3.iterH_shift', 'AITB.POMDP3.gap_eq', 'AITB.POMDP3.gap_vanishes', 'AITB.POMDP3.lb_le_ub',
+        'AITB.POMDP3.iterHV_eq', 'AITB.POMDP3.upperRefV_eq', 'AITB.POMDP3.lowerRefV_eq',
+        'AITB.POMDP3.mW_valid', 'AITB.POMDP3.mW_ref_superSol', 'AITB.POMDP3.ΓW_sound', 'AITB.POMDP3.conservative_skip_counterexample',
     ],
-    'gen_obligations': ['AITB.POMDP.src_blind_start_is_min', 'AITB.POMDP.src_fib_start_is_max', 'AITB.POMDP.src_fib_inner_is_max'],
+    'gen_obligations': ['AITB.POMDP3.src_blind_start_is_min', 'AITB.POMDP3.src_fib_start_is_max', 'AITB.POMDP3.src_fib_inner_is_max'],
     'harness': 'harness/c03.cpp',
     'level': 'proof',
     'timeout': {'quick': 900, 'thorough': 1800},
